@@ -66,6 +66,9 @@ Definition parent_ok (fs : fsT) (p : path) : bool :=
 Definition has_child (fs : fsT) (d : path) : bool :=
   existsb (fun e => is_prefix d (fst e) && negb (path_eqb d (fst e))) fs.
 
+(* token 0 stands for a path component with an embedded NUL character *)
+Definition has_nul (p : path) : bool := existsb (N.eqb 0) p.
+
 (* bytes *)
 Definition slice (d : list byte) (off n : nat) : list byte := firstn n (skipn off d).
 Definition write_at_raw (f : list byte) (off : nat) (d : list byte) : list byte :=
@@ -93,6 +96,7 @@ Fixpoint upd {A} (l : list A) (i : nat) (f : A -> A) : list A :=
 (* ExternalTensor.tobytes(): validity, (re)mapping, np.frombuffer range check, slice *)
 Definition read_tensor (fs : fsT) (t : tstate) : res (list byte) :=
   if negb (t_valid t) then Raise ValueError else
+  if has_nul (t_path t) then Raise ValueError else
   match (match t_map t with Some d => Some d
          | None => match file_at fs (t_path t) with Some (d, _) => Some d | None => None end end) with
   | None => Raise OSError
@@ -117,6 +121,7 @@ Inductive ob :=
 | OReplace (src dst : path)
 | ORemove (p : path)
 | ORmdir (p : path)
+| OSameFileErr (p q : path)
 | OFail (cleanup : bool).   (* an injected OSError; cleanup = the failed call was os.remove/os.rmdir of the finally *)
 
 Inductive act :=
@@ -143,7 +148,9 @@ Inductive act :=
 | ARead (t : nat) (rel n : nat)
 | ACheckFull (t : nat)
 | AReadT (t : nat)
-| ARaiseExists.
+| ARaiseExists
+| ASameFileNul (p q : path).   (* os.path.samefile on a path with an embedded NUL: ValueError, NOT caught by
+                                  _paths_refer_to_same_file (it catches OSError only) *)
 
 Definition counted (a : act) : bool :=
   match a with
@@ -289,6 +296,7 @@ Definition sem (a : act) (s : st) : st * res unit :=
       | Some x => match read_tensor fs x with Ok _ => (s, Ok tt) | Raise e => (s, Raise e) end
       end
   | ARaiseExists => (s, Raise OSError)
+  | ASameFileNul p q => (log (OSameFileErr p q) s, Raise ValueError)
   end.
 
 (* Exception kinds.  The shared enum (Base/Exn.v) reports everything outside the listed Exception classes
@@ -421,7 +429,8 @@ Definition plan_pre (fs : fsT) (tens : list tstate) (sc : scn) : list act :=
   let dest := dest_of fs (sc_req sc) in
   AIsLink (sc_req sc) :: (if is_link fs (sc_req sc) then [ARealpath (sc_req sc)] else [])
   ++ AMkdtemp (sc_tmpd sc)
-  :: map (fun h => ASameFile (tpath tens h) dest) (ext_handles (sc_tensors sc)).
+  :: map (fun h => if has_nul (tpath tens h) then ASameFileNul (tpath tens h) dest
+                   else ASameFile (tpath tens h) dest) (ext_handles (sc_tensors sc)).
 
 Definition plan_tail (fs : fsT) (tens : list tstate) (sc : scn) : list act :=
   let dest := dest_of fs (sc_req sc) in
@@ -521,6 +530,7 @@ Definition ob_eqb (a b : ob) : bool :=
   | OReplace a1 b1, OReplace a2 b2 => path_eqb a1 a2 && path_eqb b1 b2
   | ORemove p, ORemove p' => path_eqb p p'
   | ORmdir p, ORmdir p' => path_eqb p p'
+  | OSameFileErr p q, OSameFileErr p' q' => path_eqb p p' && path_eqb q q'
   | OFail a1, OFail a2 => Bool.eqb a1 a2
   | _, _ => false
   end.
